@@ -140,14 +140,22 @@ impl TableBuilder for PostgresQueryBuilder {
                     let first = column_def.types.is_none();
 
                     column_def.spec.iter().fold(first, |first, column_spec| {
-                        if !first
-                            && !matches!(
-                                column_spec,
-                                ColumnSpec::AutoIncrement
-                                    | ColumnSpec::Generated { .. }
-                                    | ColumnSpec::Using(_)
-                            )
-                        {
+                        // specifications that render no sub-clause of their own take no part in
+                        // the comma management
+                        if matches!(
+                            column_spec,
+                            ColumnSpec::AutoIncrement
+                                | ColumnSpec::Generated { .. }
+                                | ColumnSpec::Comment(_)
+                                | ColumnSpec::Using(_)
+                        ) {
+                            if let ColumnSpec::Using(expr) = column_spec {
+                                write!(sql, " USING ").unwrap();
+                                QueryBuilder::prepare_simple_expr(self, expr, sql);
+                            }
+                            return first;
+                        }
+                        if !first {
                             write!(sql, ", ").unwrap();
                         }
                         match column_spec {
@@ -182,10 +190,7 @@ impl TableBuilder for PostgresQueryBuilder {
                             ColumnSpec::Generated { .. } => {}
                             ColumnSpec::Extra(string) => write!(sql, "{string}").unwrap(),
                             ColumnSpec::Comment(_) => {}
-                            ColumnSpec::Using(expr) => {
-                                write!(sql, " USING ").unwrap();
-                                QueryBuilder::prepare_simple_expr(self, expr, sql);
-                            }
+                            ColumnSpec::Using(_) => {}
                         }
                         false
                     });
